@@ -69,6 +69,7 @@ func TestWorker(t *testing.T) {
 		Progress:   os.Getenv("VSIM_PROGRESS"),
 		OnlyRun:    envInt("VSIM_ONLY_RUN", -1),
 		MaxClasses: envInt("VSIM_MAX_CLASSES", 0),
+		EventLog:   os.Getenv("VSIM_EVENTLOG"),
 	}
 	sum := core.Worker(t, cfg)
 	ob, _ := json.Marshal(sum)
